@@ -251,6 +251,16 @@ def run_fault(case):
                 now = time.time()
                 os.utime(pk, (now, now))
             fail = oracle_after_fault(w)
+            if kind == 'splice' and fail is not None and fail[0] == 'wrong-tree-after-fault':
+                # root cause: the cache file has no integrity check, so a partial overwrite whose bytes still unpickle to a
+                # cache item is loaded as is (listed finding F-C17-2)
+                try:
+                    ok = isinstance(pickle.loads(new), pcache._NodeCacheItem)
+                except Exception:
+                    ok = False
+                if ok:
+                    fail = ('wrong-tree-after-fault+partial-overwrite-still-unpickles', fail[1])
+                return fail, info
             if kind == 'flip' and fail is not None and fail[0] == 'wrong-tree-after-fault':
                 # a flipped byte can yield a *valid* pickle of a different tree; no crash / full disk / concurrent writer
                 # produces that, and it is undetectable without a checksum: outside the statement, only counted
